@@ -59,7 +59,7 @@ Print Assumptions C02_check_signature_sound.
    are rejected by the provider's and the remote key set even when the
    allow-list names them: no key type fits *)
 Theorem C02_hmac_rejected : forall verify allowed ks t parsed alg,
-  (forall c s, ks <> KSProfile c s) ->
+  published ks = true ->
   check_signature verify allowed ks t parsed = Ok alg ->
   asym_family alg = true /\ prefix "HS" alg = false /\ alg <> "none".
 Proof. exact hmac_rejected. Qed.
@@ -128,6 +128,22 @@ Theorem C02_remote_rotation_sound : forall verify allowed skip steps cached,
   run_justified verify allowed cached steps (remote_run verify allowed skip cached steps).
 Proof. exact remote_rotation_sound. Qed.
 Print Assumptions C02_remote_rotation_sound.
+
+(* provider options: the verifier a provider hands out for id_token_hints (resp.
+   access tokens) believes a token only under a key of the key set configured for
+   THAT verifier - WithIDTokenHintKeySet (resp. WithAccessTokenKeySet), else the
+   storage keys - and only with an algorithm of ITS allow-list *)
+Theorem C02_provider_own_keyset : forall verify p hint t m now c' alg,
+  outcome_claims (run_provider_verifier verify p hint t m now) = Some (c', alg) ->
+  exists bytes e key,
+    m = MidOk bytes c'
+    /\ tok_sigs t = [e] /\ tok_payload t = Some bytes
+    /\ string_in (se_alg e) (effective_algs (if hint then p_hint_algs p else p_at_algs p)) = true
+    /\ In key (ks_keys (match (if hint then p_hint_keyset p else p_at_keyset p) with
+                        | Some k => k | None => KSOpenID (p_storage_keys p) end))
+    /\ verify key e bytes = true.
+Proof. exact provider_own_keyset. Qed.
+Print Assumptions C02_provider_own_keyset.
 
 (* the property predicate evaluated by the correspondence run holds of the model on every input *)
 Theorem C02_spec_model : forall i, spec i (model i) = true.
